@@ -4694,6 +4694,9 @@ class ResponseFuture(object):
         self._event.clear()
         self._final_result = _NOT_SET
         self._final_exception = None
+        # the previous page's (cancelled) timer must not keep _start_timer from arming a new one
+        self._timer = None
+        self._start_time = time.time()
         self._start_timer()
         self.send_request()
 
